@@ -25,16 +25,34 @@ THEOREMS = [
          clause="current (aliased, in-place) update: one step from a uniform field gives 8 next to 7.2 (3x3 grid, exact)"),
     dict(name="Snow.C15.radial_uniform_repaired_witness", strength="full",
          clause="the same step with the repaired update: 8, 8, 8"),
+    dict(name="Snow.C15.qEvap_uniform", strength="full",
+         clause="hypothesis hq of radial_uniform_preserved discharged: on a radially uniform field the evaporative flux "
+                "is the same in every column"),
+    dict(name="Snow.C15.radial_uniform_cooling_loop", strength="full",
+         clause="repaired update, shelf or VISF: the field is radially uniform after EVERY step of the cooling loop"),
     dict(name="Snow.C15.evap2D_eq_evap1D", strength="full",
          clause="repaired F11: cooling-stage evaporative flux of a 2D column = the 1D model's flux at that top temperature"),
     dict(name="Snow.C15.mean1D_obeys_0D", strength="full",
          clause="the mean of the 1D column evolves by the 0D formula driven by the bottom node (cooling stage)"),
+    dict(name="Snow.C15.mean1D_obeys_0D_field", strength="full",
+         clause="the same for the model's step coolField1D (q_shelf = K_shelf*(T_sh-T[0]), q_e = qEvap)"),
     dict(name="Snow.C15.flake1_eq_0D_cooling", strength="full",
          clause="isolated 1x1x1 Snowflake liquid step = Snowing-0D cooling step up to the C/K shift"),
     dict(name="Snow.C15.nuc0D_eq_direct", strength="full",
          clause="0D nucleation state = Snowflake's direct formulation (same quadratic, same branch)"),
     dict(name="Snow.C15.solid_rhs_equiv", strength="full",
          clause="on the liquidus the 0D dT/dt equals dT/dsigma times Snowflake's dsigma/dt (same ODE)"),
+    dict(name="monitored:radial_uniform_after_nucleation", strength="monitored",
+         clause="the 2D field stays radially uniform through nucleation and solidification (no theorem; radial spread "
+                "evaluated at every reported time)"),
+    dict(name="monitored:column_eq_1D_over_run", strength="monitored",
+         clause="2D columns = 1D model of equal cross-section over a whole run (different dt): paired runs"),
+    dict(name="monitored:same_cooling_curve_and_state", strength="monitored",
+         clause="Snowflake 1x1x1 and Snowing-0D: same cooling curve, nucleation state and solidification curve over a "
+                "run (the theorems are one-step / algebraic): paired runs, also with T_eq != 0"),
+    dict(name="monitored:tsol_agree", strength="monitored", clause="solidification times agree to O(dt)"),
+    dict(name="monitored:thin_limit", strength="monitored",
+         clause="1D approaches 0D as the vial becomes thermally thin: |T[0]-mean| <= Bi*|T_sh-mean| and cooling curve"),
     dict(name="Snow.C15.nonvacuous", strength="nonvacuity", clause="hypotheses satisfiable on concrete cases"),
 ]
 TRUSTED = [
@@ -71,7 +89,8 @@ def regenerate():
     gentie.regenerate("2D")
 
 LEVEL_TEXT = ("Proof for the algebraic identities, evaluation for the limits. Lean 4 theorems (exact reals): the repaired 2D "
-              "cooling step without jacket keeps a radially uniform field uniform and each column is the 1D step; exact "
+              "cooling step without jacket keeps a radially uniform field uniform and each column is the 1D step, and by induction "
+              "the field is radially uniform after every step of the cooling loop (top-flux hypothesis discharged); exact "
               "Rat counter-example for the aliased in-place update of the code before F10; cooling-stage evaporative "
               "flux 2D = 1D after F11; mean of the 1D column obeys the 0D formula; isolated Snowflake liquid step = 0D "
               "cooling step; 0D nucleation state = Snowflake direct formulation; same solidification ODE. NOT theorems "
